@@ -702,6 +702,16 @@ impl World {
                 }
                 core.log(json!({"ev": "Partition", "from": a, "to": b, "user_only": st["user_only"]}));
             }
+            "unpartition" => {
+                let a = self.parts[st["from_part"].as_u64().unwrap() as usize].index;
+                let b = self.parts[st["to_part"].as_u64().unwrap() as usize].index;
+                {
+                    let mut c = core.lock();
+                    c.blocked.retain(|x| *x != (a, b));
+                    c.blocked_user.retain(|x| *x != (a, b));
+                }
+                core.log(json!({"ev": "Unpartition", "from": a, "to": b}));
+            }
             "heal" => {
                 {
                     let mut c = core.lock();
